@@ -349,7 +349,7 @@ def check_state(scn, st, transpose=False):
         return verdict(False, st, cls={'kind': 'exception', 'exc': r.exc_type, 'spelling': st.spelling},
                        msg='conversion failed: %s\n%s' % (r.brief(), st.deck_text), out='err:' + r.exc_type)
     t4 = t4read.parse(r.t4)
-    cls, msg = oracle.structural_cls(t4)
+    cls, msg = oracle.structural_cls(t4, st.options)
     if cls:
         return verdict(False, st, cls=cls, msg=msg, out=sha(r.body))
     if st.kind == 'abbrev':
